@@ -185,6 +185,79 @@ func (e *stubEnv) intrinsic(r *engine.Run, fn *ssa.Function, args []engine.Value
 		return nil, true
 	case "VerifLoadReplay":
 		return engine.Str{}, true
+	case "verifStubReturn":
+		var vals []engine.Value
+		if sl, ok := args[1].(engine.Slice); ok {
+			for i := 0; i < sl.Len; i++ {
+				vals = append(vals, sl.Elems[i])
+			}
+		}
+		if ps.Queue == nil {
+			ps.Queue = map[string][][]engine.Value{}
+		}
+		ps.Queue[tag] = append(ps.Queue[tag], vals)
+		return nil, true
+	case "verifEffectCount":
+		n := 0
+		for _, ef := range ps.Effects {
+			if ef.Name == tag {
+				n++
+			}
+		}
+		return engine.BVConst(64, uint64(n)), true
+	case "verifEffectArg":
+		k := int(args[1].(*engine.Term).Signed())
+		i := int(args[2].(*engine.Term).Signed())
+		n := 0
+		for _, ef := range ps.Effects {
+			if ef.Name != tag {
+				continue
+			}
+			if n == k {
+				if i >= len(ef.Args) {
+					return engine.Iface{}, true
+				}
+				v := ef.Args[i]
+				if ifc, ok := v.(engine.Iface); ok {
+					return ifc, true
+				}
+				var t types.Type = types.Typ[types.Int]
+				if i < len(ef.Types) && ef.Types[i] != nil {
+					t = ef.Types[i]
+				}
+				return engine.Iface{T: t, V: v}, true
+			}
+			n++
+		}
+		return engine.Iface{}, true
+	case "verifEffectIndex":
+		// position of the k-th effect named tag in the global effect order (-1 if absent)
+		k := int(args[1].(*engine.Term).Signed())
+		n := 0
+		for idx, ef := range ps.Effects {
+			if ef.Name == tag {
+				if n == k {
+					return engine.BVConst(64, uint64(idx)), true
+				}
+				n++
+			}
+		}
+		return engine.BVConst(64, ^uint64(0)), true
+	case "verifCatchExit":
+		code := -1
+		func() {
+			defer func() {
+				if rec := recover(); rec != nil {
+					if ab, ok := rec.(*engine.Abort); ok && ab.Kind == "exit" {
+						code = ab.Code
+						return
+					}
+					panic(rec)
+				}
+			}()
+			r.CallValue(args[0], nil, site)
+		}()
+		return engine.BVConst(64, uint64(int64(code))), true
 	}
 	if strings.HasPrefix(name, "VerifModel") || strings.HasPrefix(name, "verifIs") || strings.HasPrefix(name, "verifLower") || strings.HasPrefix(name, "verifNext") {
 		return nil, false // executed as ordinary code
@@ -227,12 +300,21 @@ func (e *stubEnv) external(r *engine.Run, fn *ssa.Function, args []engine.Value,
 		return nil, true
 	}
 	ps := r.User.(*pathState)
+	if q := ps.Queue[name]; len(q) > 0 {
+		vals := q[0]
+		ps.Queue[name] = q[1:]
+		ps.Effects = append(ps.Effects, effectOf("call:"+name, fn, args))
+		return stubResult(fn, vals), true
+	}
 	for _, st := range e.res.Kernel.Stub {
 		if st == name {
 			return zeroResults(fn), true
 		}
 	}
 	if fn.Pkg != nil && fn.Pkg.Pkg.Path() == "github.com/dave/jennifer/jen" {
+		if e.res.Kernel.RecordJen {
+			ps.Effects = append(ps.Effects, effectOf("jen."+fn.Name(), fn, args))
+		}
 		return jenStub(r, ps, fn, args), true
 	}
 	if m, ok := stringsModels[name]; ok {
@@ -275,7 +357,16 @@ func (e *stubEnv) external(r *engine.Run, fn *ssa.Function, args []engine.Value,
 		return engine.Str{Atom: a}, true
 	case "fmt.Println", "fmt.Fprintln", "fmt.Fprint", "fmt.Printf", "fmt.Fprintf":
 		ps.FS = append(ps.FS, name)
+		ps.Effects = append(ps.Effects, effectOf(name, fn, args))
 		return engine.Tuple{engine.BVConst(64, 0), engine.Iface{}}, true
+	case "os.MkdirAll", "os.WriteFile", "os.Remove", "os.RemoveAll", "os.Rename", "os.Create", "os.OpenFile", "os.Mkdir", "os.Chmod":
+		ps.Effects = append(ps.Effects, effectOf(name, fn, args))
+		return zeroResults(fn), true
+	case "golang.org/x/tools/go/packages.Load":
+		ps.Effects = append(ps.Effects, effectOf(name, fn, args))
+		return zeroResults(fn), true
+	case "runtime/debug.ReadBuildInfo":
+		return zeroResults(fn), true
 	case "regexp.Compile":
 		if p, ok := concStr(args[0]); ok {
 			re, err := regexp.Compile(p)
@@ -319,6 +410,8 @@ func (e *stubEnv) external(r *engine.Run, fn *ssa.Function, args []engine.Value,
 	case "path/filepath.Join", "path/filepath.Dir", "path/filepath.Base", "path/filepath.Ext", "path/filepath.IsAbs", "path/filepath.Abs", "path/filepath.Rel", "path/filepath.Clean",
 		"path.Join", "path.Dir", "path.Base":
 		return filepathStub(r, name, args)
+	case "(*bytes.Buffer).Bytes":
+		return engine.Slice{Elems: []engine.Value{}, Len: 0}, true
 	case "(*bytes.Buffer).String":
 		return engine.Str{Atom: r.Fresh(engine.AtomSort, "bufstring")}, true
 	case "(*bytes.Buffer).WriteString", "(*bytes.Buffer).Write":
@@ -367,6 +460,7 @@ func (e *stubEnv) external(r *engine.Run, fn *ssa.Function, args []engine.Value,
 			code = int(t.Signed())
 		}
 		ps.FS = append(ps.FS, fmt.Sprintf("os.Exit(%d)", code))
+		ps.Effects = append(ps.Effects, effectOf(name, fn, args))
 		panic(&engine.Abort{Kind: "exit", Reason: fmt.Sprintf("os.Exit(%d)", code), Code: code})
 	}
 	return nil, false
@@ -577,6 +671,9 @@ func zeroResults(fn *ssa.Function) engine.Value {
 func jenStub(r *engine.Run, ps *pathState, fn *ssa.Function, args []engine.Value) engine.Value {
 	res := fn.Signature.Results()
 	mk := func(t types.Type) engine.Value {
+		if n, ok := t.(*types.Named); ok && n.Obj().Pkg() == nil && n.Obj().Name() == "error" {
+			return engine.Iface{} // jennifer calls succeed
+		}
 		switch u := t.Underlying().(type) {
 		case *types.Pointer, *types.Interface:
 			o := r.NewOpaque("jen." + fn.Name())
@@ -607,3 +704,48 @@ func jenStub(r *engine.Run, ps *pathState, fn *ssa.Function, args []engine.Value
 }
 
 var jenDynType = types.NewNamed(types.NewTypeName(0, nil, "verifJenCode", nil), types.Typ[types.Int], nil)
+
+func effectOf(name string, fn *ssa.Function, args []engine.Value) Effect {
+	ef := Effect{Name: name, Args: args}
+	for i := range args {
+		if i < len(fn.Params) {
+			ef.Types = append(ef.Types, fn.Params[i].Type())
+		} else {
+			ef.Types = append(ef.Types, nil)
+		}
+	}
+	return ef
+}
+
+// stubResult converts programmed return values (passed as ...any) to the callee's result types.
+func stubResult(fn *ssa.Function, vals []engine.Value) engine.Value {
+	res := fn.Signature.Results()
+	conv := func(i int) engine.Value {
+		rt := res.At(i).Type()
+		if i >= len(vals) {
+			return engine.Zero(rt)
+		}
+		ifc, ok := vals[i].(engine.Iface)
+		if !ok {
+			return vals[i]
+		}
+		if _, isIface := rt.Underlying().(*types.Interface); isIface {
+			return ifc
+		}
+		if ifc.T == nil {
+			return engine.Zero(rt)
+		}
+		return ifc.V
+	}
+	switch res.Len() {
+	case 0:
+		return nil
+	case 1:
+		return conv(0)
+	}
+	tu := make(engine.Tuple, res.Len())
+	for i := range tu {
+		tu[i] = conv(i)
+	}
+	return tu
+}
